@@ -27,9 +27,13 @@ MC_WB = os.path.join(ROOT, "spec/mc/MC_WriterBuffer.tla")
 MC_SER = os.path.join(ROOT, "spec/mc/MC_Serializer.tla")
 BUF = 512
 
-ENCODINGS = ["UTF-8", "UTF-16", "ISO-8859-1", "US-ASCII", "windows-1252", "GB18030", "UTF-16BE"]
+ENCODINGS_MC = ["UTF-8", "UTF-16", "ISO-8859-1", "US-ASCII", "windows-1252", "GB18030", "UTF-16BE"]
+# X-UNKNOWN-ENC: a name no transcoder knows (XSLT 16.1: a processor that does not signal an error "should use UTF-8 or UTF-16"; Xalan uses
+# UTF-8): what is written must then BE UTF-8 and say so
+ENCODINGS = ENCODINGS_MC + ["X-UNKNOWN-ENC"]
+EFFECTIVE = {"X-UNKNOWN-ENC": "UTF-8"}
 NO_LEGACY = {"UTF-16BE"}       # encodings only run through the factory serializer and end to end
-PYCODEC = {"UTF-16BE": "utf-16-be", "UTF-8": "utf-8", "UTF-16": "utf-16", "ISO-8859-1": "latin-1", "US-ASCII": "ascii", "windows-1252": "cp1252", "GB18030": "gb18030"}
+PYCODEC = {"X-UNKNOWN-ENC": "utf-8", "UTF-16BE": "utf-16-be", "UTF-8": "utf-8", "UTF-16": "utf-16", "ISO-8859-1": "latin-1", "US-ASCII": "ascii", "windows-1252": "cp1252", "GB18030": "gb18030"}
 VERSIONS = ["1.0", "1.1"]
 
 
@@ -114,8 +118,8 @@ def canon(data, enc, ver):
     m = _DECL.match(text)
     if m:
         docver = m.group(2)
-        if m.group(4) and m.group(4).lower() != enc.lower():
-            return None, "declaration: encoding %s declared, %s requested" % (m.group(4), enc)
+        if m.group(4) and m.group(4).lower() != EFFECTIVE.get(enc, enc).lower():
+            return None, "declaration: encoding %s declared, %s %s" % (m.group(4), enc, "requested" if enc not in EFFECTIVE else "requested, %s written" % EFFECTIVE[enc])
         if docver != ver:
             return None, "declaration: version %s declared, %s requested" % (docver, ver)
         text = text[m.end():]
@@ -232,6 +236,8 @@ CLASSES = {   # class alphabet of the model: name -> code points
     "supp": [0x1F600], "loneHigh": [0xD800], "loneLow": [0xDC00], "c0": [1], "fffe": [0xFFFE], "del": [0x7F], "c1": [0x9F],
     "cyr": [0x416], "sp": [0x20], "dash": [0x2D], "qm": [0x3F], "bmpCdend": [0x20AC, 0x5D, 0x5D, 0x3E], "suppPair": [0x1F600, 0x1F600],
     "crNel": [13, 0x85], "ext": [0x100],
+    # the edges of the UTF-8 / UTF-16 forms: last two-byte and first three-byte character, the last BMP character, first and last supplementary one
+    "b7ff": [0x7FF], "b800": [0x800], "bfffd": [0xFFFD], "s10000": [0x10000], "s10ffff": [0x10FFFF], "b80": [0x80],
 }
 NAME_CLASSES = ["plain", "latin1", "cyr"]
 BOUNDARY_CLASSES = ["latin1", "bmp", "supp", "lt", "amp", "cr", "crlf", "cdend", "tab", "nel", "lsep", "cyr", "rsb", "loneLow", "suppPair", "bmpCdend", "quot"]
@@ -553,7 +559,7 @@ def strings_of(script):
 def encodable(c, enc):
     if 0xD800 <= c <= 0xDFFF:
         return False
-    if enc in ("UTF-8", "UTF-16", "GB18030", "UTF-16BE"):
+    if enc in ("UTF-8", "UTF-16", "GB18030", "UTF-16BE", "X-UNKNOWN-ENC"):
         return True
     try:
         chr(c).encode(PYCODEC[enc]); return True
@@ -632,7 +638,7 @@ def predicted_deviation(ev, known):
     """the tree the known tree-changing deviations predict for this script, and the keys that changed something.
     Only classes that are still open (status "known") are applied: a repaired class predicts nothing, so its
     recurrence matches no prediction and is reported as a violation."""
-    enc, ver, which = ev["enc"], ev["ver"], "legacy" if ev["which"] == "legacy" else "new"
+    enc, ver, which = EFFECTIVE.get(ev["enc"], ev["enc"]), ev["ver"], "legacy" if ev["which"] == "legacy" else "new"
     on = lambda key: class_key(key, which == "legacy") in known
     keys, script = [], []
     for n in ev["script"]:
@@ -694,7 +700,7 @@ def triage(ev, known):
     """-> known-finding key or None"""
     if ev["e"] != "Serialize":
         return None
-    enc, ver, which = ev["enc"], ev["ver"], ev["which"]
+    enc, ver, which = EFFECTIVE.get(ev["enc"], ev["enc"]), ev["ver"], ev["which"]       # an unknown name: what is written is UTF-8
     legacy = which == "legacy"
     strs = strings_of(ev["script"])
     other = enc not in ("UTF-8", "UTF-16")
@@ -708,6 +714,8 @@ def triage(ev, known):
 
     if ev["status"] == "error":
         hx = {int(h, 16) for h in _hexes(ev["msg"])}
+        if enc == "GB18030" and has("TADCPN", lambda c: c >= 0x100000) and not has("TADCPN", lambda c: 0xD800 <= c <= 0xDFFF or c in (0xFFFE, 0xFFFF)):
+            return hit("plane16RefusedUnderGB18030")
         if not legacy:
             if ver == "1.1" and 9 in hx and has("DCP", lambda c: c == 9):
                 return hit("xml11TabRejected")
@@ -794,7 +802,7 @@ def model_check(res, tier, wd):
         cfg = os.path.join(wd, "wb_%s.cfg" % fam)
         open(cfg, "w").write(wb_cfg(fam, 8 if quick else 12, (4, 5, 9), "View"))
         jobs.append(("MC_WriterBuffer/%s (buffer %d, <= %d operations)" % (fam, MODEL_BUF, 8 if quick else 12), MC_WB, cfg))
-    runs = [("StrSpec", 2 if quick else 3, ENCODINGS, "FullAlphabet", ["SpecSound", "ImplConforms", "LegacyConformsInv"]),
+    runs = [("StrSpec", 2 if quick else 3, ENCODINGS_MC, "FullAlphabet", ["SpecSound", "ImplConforms", "LegacyConformsInv"]),
             ("StrSpec", 4 if quick else 5, ["UTF-8", "ISO-8859-1"], "SeqAlphabet", ["SpecSound", "ImplConforms", "LegacyConformsInv"]),
             ("TokSpec", 2 if quick else 3, ["UTF-8", "ISO-8859-1"], "FullAlphabet" if quick else "SeqAlphabet", ["SpecComplete"])]
     for i, (spec, ml, encs, alpha, invs) in enumerate(runs):
